@@ -141,6 +141,7 @@ func runF2I(c *Ctx, r *Reporter, rel string) {
 					if why := roundTripProtected(cv); why == "" {
 						r.Ok(construct, pos, "round-trip test float64(i) == f guards every use of the integer")
 						checkAlloc(p, fd, cv, r)
+						checkTripCount(p, fd, cv, r)
 						continue
 					}
 					lo, hi, _ := nanSafeGuards(cv, cv.X)
@@ -484,6 +485,40 @@ func allPathsUpperBounded(cv *ssa.Convert, ms *ssa.MakeSlice) bool {
 			}
 		}
 	}
+	return pathsUpperBounded(cv, ms.Block(), other)
+}
+
+// checkTripCount: a loop whose trip count is the converted user number (`for range n`, `for i := 0; i < n; i++`)
+// is reached only over the false edge of an upper-bound test of that number.
+func checkTripCount(p *Program, fd *FuncDecl, cv *ssa.Convert, r *Reporter) {
+	fn := cv.Parent()
+	k := 0
+	for _, b := range fn.Blocks {
+		if len(b.Instrs) == 0 {
+			continue
+		}
+		ifi, ok := b.Instrs[len(b.Instrs)-1].(*ssa.If)
+		if !ok {
+			continue
+		}
+		bo, ok := ifi.Cond.(*ssa.BinOp)
+		if !ok || (bo.Op != token.LSS && bo.Op != token.LEQ) || bo.Y != ssa.Value(cv) {
+			continue
+		}
+		// a loop: the test is on a cycle (go/ssa rotates `for range n` into a guard plus a bottom test)
+		if !reachesBlock(b.Succs[0], b) {
+			continue
+		}
+		k++
+		construct := fmt.Sprintf("%s#trip-count[%d]", fd.QName(), k)
+		r.Check(pathsUpperBounded(cv, b, nil), construct, p.Rel(instrPos(cv)), "the loop count derived from a user number is bounded above on every path to the loop",
+			fmt.Sprintf("a loop runs %s times, a count converted from a user number, and a path reaches it without an upper-bound test: a count like 1e15 keeps the host busy for ever (no stop check inside the loop)", cv.Name()))
+	}
+}
+
+// pathsUpperBounded: every path from the conversion to target takes the false edge of `v > c` / `v >= c`
+// (or of `other > 0` when other is given).
+func pathsUpperBounded(cv *ssa.Convert, target *ssa.BasicBlock, other ssa.Value) bool {
 	blocked := func(b *ssa.BasicBlock, idx int) bool {
 		if len(b.Instrs) == 0 {
 			return false
@@ -512,7 +547,7 @@ func allPathsUpperBounded(cv *ssa.Convert, ms *ssa.MakeSlice) bool {
 	seen := map[*ssa.BasicBlock]bool{}
 	var reach func(b *ssa.BasicBlock) bool
 	reach = func(b *ssa.BasicBlock) bool {
-		if b == ms.Block() {
+		if b == target {
 			return true
 		}
 		if seen[b] {
